@@ -9,9 +9,12 @@ package synct
 //   cfg <prio,prio,…|-> <name:type,…|->   UpdateClientConnState (children = the names with their policy type A|B)
 //   child <name> <state>                    the live stub child of that name reports a state with a fresh picker
 //   sleep <ms>                              virtual time passes
+//   hold <0|1>                              1: an init-timer callback that is dispatched parks before it takes the balancer's
+//                                           mutex (the window between the timer firing and its callback running)
+//   release                                 the oldest parked callback runs
 //
 // output:  use=<childInUse> pr=<priorities> ch=<name:type:started:state:pickerId:reportedTF:timer,…>
-//          up=<state/pickerId;…> ev=<B:name:type | U:name | C:name …>
+//          up=<state/pickerId;…> ev=<B:name:type | U:name | C:name …> pend=<number of parked callbacks>
 // picker ids: p<k> = k-th picker a stub child created (k counts per case), nosc = ErrNoSubConnAvailable error picker,
 // allrm = ErrAllPrioritiesRemoved error picker.
 
@@ -21,6 +24,7 @@ import (
 	"fmt"
 	"sort"
 	"strings"
+	"sync"
 	"time"
 
 	"google.golang.org/grpc/balancer"
@@ -40,6 +44,9 @@ type prCase struct {
 	nextPk  int
 	live    map[string]*prChild // by child name, the most recently built instance that is not closed
 	pending []*prChild
+	mu      sync.Mutex
+	hold    bool
+	parked  []chan struct{}
 }
 
 type prChild struct {
@@ -133,6 +140,21 @@ func init() {
 	register("s_priority", func() SHandler {
 		h := &prCase{live: map[string]*prChild{}}
 		prCur = h
+		priority.VerifSetTimeAfterFunc(func(d time.Duration, fn func()) *time.Timer {
+			return time.AfterFunc(d, func() {
+				h.mu.Lock()
+				var ch chan struct{}
+				if h.hold {
+					ch = make(chan struct{})
+					h.parked = append(h.parked, ch)
+				}
+				h.mu.Unlock()
+				if ch != nil {
+					<-ch
+				}
+				fn()
+			})
+		})
 		h.bal = balancer.Get(priority.Name).Build(h, balancer.BuildOptions{})
 		return h
 	})
@@ -166,7 +188,10 @@ func (h *prCase) state() string {
 		use = "-"
 	}
 	sort.SliceStable(h.evs, func(i, j int) bool { return prEvName(h.evs[i]) < prEvName(h.evs[j]) })
-	out := fmt.Sprintf("use=%s pr=%s ch=%s up=%s ev=%s", use, prJoin(s.Priorities, ","), prJoin(ch, ","), prJoin(h.ups, ";"), prJoin(h.evs, ";"))
+	h.mu.Lock()
+	np := len(h.parked)
+	h.mu.Unlock()
+	out := fmt.Sprintf("use=%s pr=%s ch=%s up=%s ev=%s pend=%d", use, prJoin(s.Priorities, ","), prJoin(ch, ","), prJoin(h.ups, ";"), prJoin(h.evs, ";"), np)
 	if s.Inhibit {
 		out += " INHIBITED"
 	}
@@ -219,6 +244,23 @@ func (h *prCase) Op(f []string) string {
 		c.cc.UpdateState(balancer.State{ConnectivityState: connectivity.State(st), Picker: &prPicker{id: h.nextPk}})
 	case "sleep":
 		time.Sleep(time.Duration(odInt(f[1])) * time.Millisecond)
+	case "hold":
+		if len(f) != 2 {
+			return "bad-op"
+		}
+		h.mu.Lock()
+		h.hold = f[1] == "1"
+		h.mu.Unlock()
+	case "release":
+		h.mu.Lock()
+		if len(h.parked) == 0 {
+			h.mu.Unlock()
+			return "noparked"
+		}
+		ch := h.parked[0]
+		h.parked = h.parked[1:]
+		h.mu.Unlock()
+		close(ch)
 	default:
 		return "bad-op"
 	}
@@ -226,4 +268,15 @@ func (h *prCase) Op(f []string) string {
 	return h.state()
 }
 
-func (h *prCase) Close() { h.bal.Close() }
+func (h *prCase) Close() {
+	h.mu.Lock()
+	h.hold = false
+	for _, ch := range h.parked {
+		close(ch)
+	}
+	h.parked = nil
+	h.mu.Unlock()
+	settle()
+	h.bal.Close()
+	priority.VerifSetTimeAfterFunc(nil)
+}
